@@ -24,6 +24,27 @@ type Case struct {
 	Pauses []int     `json:"pauses"`
 	OutBuf int       `json:"out_buf,omitempty"` // window output buffer size (0 = default)
 	SinkUs int       `json:"sink_us,omitempty"` // sink delay per delivery (backpressure on the window output)
+	Nested bool      `json:"nested,omitempty"`  // the first key column lives under the map column dev (GROUP BY dev.k1, selected AS k1)
+}
+
+// engineRow is the row as the engine gets it.
+func engineRow(c Case, m map[string]any) map[string]any {
+	if !c.Nested || len(c.Keys) == 0 {
+		return m
+	}
+	k := c.Keys[0]
+	out := make(map[string]any, len(m))
+	for kk, v := range m {
+		if kk != k {
+			out[kk] = v
+		}
+	}
+	dev := map[string]any{"other": 1}
+	if v, ok := m[k]; ok {
+		dev[k] = v
+	}
+	out["dev"] = dev
+	return out
 }
 
 const sentinel = "⁣sentinel⁣"
@@ -81,6 +102,7 @@ func genCase(t *rapid.T) Case {
 		cp := gen.CollidingPair().Draw(t, "collide")
 		pool[0], pool[1] = cp[0], cp[1]
 	}
+	c.Nested = nk > 0 && rapid.IntRange(0, 3).Draw(t, "nested") == 0
 	if rapid.IntRange(0, 3).Draw(t, "backpressure") == 0 {
 		c.OutBuf = rapid.SampledFrom([]int{1, 2, 4}).Draw(t, "outbuf")
 		c.SinkUs = rapid.SampledFrom([]int{50, 200, 1000}).Draw(t, "sinkus")
@@ -119,10 +141,15 @@ func tupleKey(keys []string, r gen.Row) string {
 }
 
 func sql(c Case) string {
+	keys := append([]string{}, c.Keys...)
 	sel := append([]string{}, c.Keys...)
+	if c.Nested && len(keys) > 0 {
+		sel[0] = "dev." + keys[0] + " AS " + keys[0]
+		keys[0] = "dev." + keys[0]
+	}
 	sel = append(sel, "count(*) AS c", "collect(id) AS ids", "first_value(id) AS f", "last_value(id) AS l", "sum(id) AS s")
 	q := "SELECT " + strings.Join(sel, ", ") + " FROM stream GROUP BY "
-	for _, k := range c.Keys {
+	for _, k := range keys {
 		q += k + ", "
 	}
 	q += fmt.Sprintf("CountingWindow(%d)", c.N)
@@ -209,7 +236,7 @@ func runCase(c Case) (res pbt.Result) {
 		}
 	}
 	for i, r := range c.Rows {
-		in.Emit(r.Go())
+		in.Emit(engineRow(c, r.Go()))
 		switch c.Pauses[i] {
 		case 1:
 			time.Sleep(0)
@@ -229,7 +256,7 @@ func runCase(c Case) (res pbt.Result) {
 			for _, k := range c.Keys {
 				r[k] = sentinel
 			}
-			in.Emit(r)
+			in.Emit(engineRow(c, r))
 		}
 		total++
 	}
@@ -358,7 +385,7 @@ func features(c Case) []string {
 
 var spec = pbt.Spec[Case]{
 	ID:          "C09",
-	Rule:        "generated: N in 1..7, 0-2 key columns (one scalar type per column; strings from a separator-bearing pool, ints, floats, NULL, missing), 0-60 rows drawn from a pool of 1-5 key tuples, producer pauses; oracle: per typed key tuple the i-th delivery is rows (i-1)N+1..iN (collect/count/first/last/sum/key columns), no remainder delivery, no row twice. non-trivial = >=2 distinct key tuples and at least one key reaching a second batch; distinct = hash of the case JSON",
+	Rule:        "generated: N in 1..7, 0-2 key columns (the first one, one time in four, nested under a map column: GROUP BY dev.k1; one scalar type per column; strings from a separator-bearing pool, ints, floats, NULL, missing), 0-60 rows drawn from a pool of 1-5 key tuples, producer pauses; oracle: per typed key tuple the i-th delivery is rows (i-1)N+1..iN (collect/count/first/last/sum/key columns), no remainder delivery, no row twice. non-trivial = >=2 distinct key tuples and at least one key reaching a second batch; distinct = hash of the case JSON",
 	Assumptions: []string{"input never dropped: WithOverflowStrategy(block,0)", "a sentinel key's full batch acts as barrier (window goroutine is sequential)", "missing key column is the same group as NULL"},
 	Gen:         genCase,
 	Run:         runCase,
